@@ -17,15 +17,29 @@ View == <<inst, rec, mine, runs>>
 V3 == {<<1, 0>>, <<1, 1>>, <<2, 0>>}          \* with NoVer: {none, 1.0, 1.1, 2.0}
 V2 == {<<1, 0>>, <<2, 0>>}
 VerOrNone == Vers \cup {NoVer}
-\* the lines a file set may contain for one package (bounded): pins of every version, one in a second
-\* spelling (1.0.0 = 1.0), unpinned, and representatives of the ignored classes
-LinesOf(p) == { [f |-> "pin", p |-> p, v |-> v] : v \in Vers } \cup { [f |-> "pin_comment", p |-> p, v |-> <<1, 0, 0>>] }
-              \cup { [f |-> "unpinned", p |-> p, v |-> NoVer], [f |-> "ge", p |-> p, v |-> <<2, 0>>], [f |-> "comment", p |-> p, v |-> <<2, 0>>] }
+\* the lines a file set may contain for one package (bounded).  A line is its text (tokens) plus the label
+\* of what it is meant to be; Select / Decide see only the text (RequirementsCore!Classify), the clauses
+\* below are restated on the labels.  Pins of every version, one in a second spelling (1.0.0 = 1.0), unpinned,
+\* representatives of the ignored classes - and comments that look like requirement text: specifiers, commas,
+\* a higher pin of the same package, a second '#'.
+Hi == CHOOSE v \in Vers : \A w \in Vers : ~VLt(v, w)
+CPlain    == <<TWs, TSym("#"), TWs, TWord("pinned"), TWs, TWord("here")>>
+CSpec(p)  == <<TWs, TSym("#"), TWs, TWord("was"), TWs, TName(p), TSym(">="), TVer(<<1, 0>>), TSym(","), TSym("!="), TVer(<<1, 1>>), TWs, TSym("~="), TSym("<"), TSym(">")>>
+CPin(p)   == <<TWs, TSym("#"), TName(p), TSym("=="), TVer(<<9, 9>>), TWs, TSym("#"), TWs, TName(p)>>
+Mk(f, p, v, toks) == [f |-> f, p |-> p, v |-> v, toks |-> toks, tr |-> TrickyToks(toks)]      \* (tr: for the witnesses, computed once)
+PinL(p, v, c)  == Mk(IF c = <<>> THEN "pin" ELSE "pin_comment", p, v, <<TName(p), TSym("=="), TVer(v)>> \o c)
+UnpL(p, c)     == Mk(IF c = <<>> THEN "unpinned" ELSE "unpinned_comment", p, NoVer, <<TName(p)>> \o c)
+GeL(p, v, c)   == Mk("ge", p, v, <<TName(p), TSym(">="), TVer(v)>> \o c)
+ComL(p, v, c)  == Mk("comment", p, v, <<TSym("#"), TWs, TName(p), TSym("=="), TVer(v)>> \o c)
+LinesOf(p) == { PinL(p, v, <<>>) : v \in Vers } \cup { PinL(p, <<1, 0, 0>>, CPlain), PinL(p, Hi, CSpec(p)), PinL(p, <<1, 0>>, CPin(p)) }
+              \cup { UnpL(p, <<>>), UnpL(p, CPin(p)) }
+              \cup { GeL(p, Hi, <<>>), GeL(p, Hi, CPin(p)), ComL(p, Hi, <<>>), ComL(p, Hi, CSpec(p)) }
 Small(S) == { T \in SUBSET S : Cardinality(T) <= MaxLinesPerPkg }
 PkgSeq == CHOOSE s \in [1..Cardinality(Pkgs) -> Pkgs] : \A i, j \in 1..Cardinality(Pkgs) : i # j => s[i] # s[j]
 RECURSIVE Fam(_)
 Fam(i) == IF i > Len(PkgSeq) THEN {{}} ELSE { a \cup b : a \in Small(LinesOf(PkgSeq[i])), b \in Fam(i + 1) }
-LineFamilies == Fam(1)
+\* a file set = its lines and what they mean (Classify on the text, evaluated once per family)
+LineFamilies == { [lines |-> F, M |-> Means(F)] : F \in Fam(1) }
 
 Init == /\ inst \in [Pkgs -> VerOrNone]          \* whatever Home Assistant's environment already contains
         /\ rec = [p \in Pkgs |-> NoVer] /\ mine = [p \in Pkgs |-> NoVer]
@@ -33,8 +47,8 @@ Init == /\ inst \in [Pkgs -> VerOrNone]          \* whatever Home Assistant's en
 
 \* (the singleton quantifiers make TLC evaluate want / ins / after once per step)
 Run == /\ runs < MaxRuns
-       /\ \E lines \in LineFamilies, allow \in BOOLEAN, latest \in Vers \ {<<1, 0>>}, drop \in BOOLEAN :
-          \E want \in {[p \in Pkgs |-> Select(lines, p)]} :
+       /\ \E fam \in LineFamilies, allow \in BOOLEAN, latest \in Vers \ {<<1, 0>>}, drop \in BOOLEAN :
+          \E lines \in {fam.lines}, want \in {[p \in Pkgs |-> SelectM(fam.M, p)]} :
           \E ins \in {{ p \in Pkgs : Decide(inst[p], rec[p], want[p], allow) }} :
           \E after \in {[p \in Pkgs |-> IF p \in ins THEN (IF want[p].k = "pin" THEN want[p].v ELSE latest) ELSE inst[p]]} :
                /\ inst' = after
@@ -42,8 +56,9 @@ Run == /\ runs < MaxRuns
                /\ rec' = [p \in Pkgs |-> LET ok == RecordsOk(inst[p], rec[p], want[p], allow, after[p])
                                           IN IF drop /\ NoVer \in ok THEN NoVer ELSE CHOOSE r \in ok : r # NoVer \/ ok = {NoVer}]
                /\ mine' = [p \in Pkgs |-> IF p \in ins THEN after[p] ELSE mine[p]]
-               /\ lastAct' = [k |-> "run", lines |-> lines, allow |-> allow, ins |-> ins,
+               /\ lastAct' = [k |-> "run", lines |-> lines, want |-> want, allow |-> allow, ins |-> ins,
                                upd |-> { p \in ins : Owned(inst[p], rec[p]) },                       \* (for the witnesses)
+                               missing |-> { p \in Pkgs : inst[p] = NoVer },
                                skipped |-> { p \in Pkgs \ ins : Foreign(inst[p], rec[p]) /\ want[p].k = "pin" /\ ~VEq(want[p].v, inst[p]) }]
        /\ runs' = runs + 1
 
@@ -57,7 +72,9 @@ Spec == Init /\ [][Next]_vars
 \* ------------------------------------------------------------------ the statement
 A == lastAct'
 IsRun == A.k = "run"
+\* (on the labels: what the author of the files wrote, whatever the comments say)
 PinsIn(L, p) == { l.v : l \in { x \in L : x.p = p /\ x.f \in {"pin", "pin_comment"} } }
+UnpinnedIn(L, p) == \E l \in L : l.p = p /\ l.f \in {"unpinned", "unpinned_comment"}
 \* what was installed by the run: the packages whose environment version moved
 Moved == { p \in Pkgs : inst'[p] # inst[p] }
 
@@ -73,22 +90,34 @@ OwnUpdatedOnlyOnPinChange ==
 MissingInstalledAsSelected ==
   [][ IsRun /\ A.allow => \A p \in Pkgs : inst[p] = NoVer =>
         IF PinsIn(A.lines, p) # {} THEN p \in A.ins /\ inst'[p] \in PinsIn(A.lines, p) /\ \A w \in PinsIn(A.lines, p) : ~VLt(inst'[p], w)
-        ELSE IF \E l \in A.lines : l.p = p /\ l.f = "unpinned" THEN p \in A.ins /\ inst'[p] # NoVer
+        ELSE IF UnpinnedIn(A.lines, p) THEN p \in A.ins /\ inst'[p] # NoVer
         ELSE p \notin A.ins /\ inst'[p] = NoVer ]_vars
 OnlyDecidedMove == [][ IsRun => Moved \subseteq A.ins ]_vars
 \* the record always matches what pyscript installed
 RecordEqualsWhatWasInstalled == \A p \in Pkgs : rec[p] # NoVer => mine[p] # NoVer /\ VEq(rec[p], mine[p])
 RecordFollowsInstall == [][ IsRun => \A p \in A.ins : rec'[p] # NoVer /\ VEq(rec'[p], inst'[p]) ]_vars
 TypeOK == inst \in [Pkgs -> VerOrNone \cup {<<1, 0, 0>>}] /\ runs \in 0..MaxRuns
+\* the text of every line of the model means what its label says (Classify against the form table)
+LabelsOk == \A p \in Pkgs : \A l \in LinesOf(p) : LabelOk(l)
 
 \* ------------------------------------------------------------------ witnesses (each must be VIOLATED)
 W_NoForeignWithRecord == \A p \in Pkgs : ~(rec[p] # NoVer /\ inst[p] # NoVer /\ ~VEq(rec[p], inst[p]))
 W_NoOwnUpdate         == ~(lastAct.k = "run" /\ lastAct.upd # {})
 W_NoForeignSkipped    == ~(lastAct.k = "run" /\ lastAct.allow /\ lastAct.skipped # {})
-W_NoUnpinnedInstall   == ~(lastAct.k = "run" /\ \E p \in lastAct.ins : Select(lastAct.lines, p).k = "unpinned")
-W_NoTie               == ~(lastAct.k = "run" /\ \E p \in Pkgs : \E a, b \in Pins(lastAct.lines, p) : a # b /\ VEq(a, b))
-Witnesses == <<W_NoForeignWithRecord, W_NoOwnUpdate, W_NoForeignSkipped, W_NoUnpinnedInstall, W_NoTie>>
-ASSUME \A i \in 1..5 : TLCSet(i, 0)
-WitnessTrack == \A i \in 1..5 : Witnesses[i] \/ TLCSet(i, 1)
-WitnessPost  == \A i \in 1..5 : TLCGet(i) = 1 \/ PrintT("WITNESS-MISSING " \o ToString(i))
+W_NoUnpinnedInstall   == ~(lastAct.k = "run" /\ \E p \in lastAct.ins : lastAct.want[p].k = "unpinned")
+W_NoTie               == ~(lastAct.k = "run" /\ \E p \in Pkgs : \E a, b \in PinsIn(lastAct.lines, p) : a # b /\ VEq(a, b))
+\* a pin whose comment carries specifiers / commas is the only line of a package and gets installed
+W_NoTrickyPin         == ~(lastAct.k = "run" /\ \E l \in lastAct.lines : l.f = "pin_comment" /\ l.tr /\ l.p \in lastAct.ins
+                                                      /\ \A m \in lastAct.lines : m.p = l.p => m = l)
+\* a comment line / an unpinned line whose comment contains a pin: the pin in the comment is not installed
+W_NoTrickyCommentLine == ~(lastAct.k = "run" /\ lastAct.allow /\ \E l \in lastAct.lines : l.f = "comment" /\ l.tr /\ l.p \in lastAct.missing
+                                                      /\ l.p \notin lastAct.ins)
+W_NoTrickyUnpinned    == ~(lastAct.k = "run" /\ \E l \in lastAct.lines : l.f = "unpinned_comment" /\ l.tr /\ l.p \in lastAct.ins
+                                                      /\ \A m \in lastAct.lines : m.p = l.p => m = l)
+NW == 8
+Witnesses == <<W_NoForeignWithRecord, W_NoOwnUpdate, W_NoForeignSkipped, W_NoUnpinnedInstall, W_NoTie,
+               W_NoTrickyPin, W_NoTrickyCommentLine, W_NoTrickyUnpinned>>
+ASSUME \A i \in 1..NW : TLCSet(i, 0)
+WitnessTrack == \A i \in 1..NW : Witnesses[i] \/ TLCSet(i, 1)
+WitnessPost  == \A i \in 1..NW : TLCGet(i) = 1 \/ PrintT("WITNESS-MISSING " \o ToString(i))
 =============================================================================
